@@ -254,9 +254,21 @@ def rule_anchor_consumed(ctx, fx, config):
     ctx.floor("ANCHOR.variant-labels", nv, 6, config)
     # the absent branch of a weak anchor writes `null` like any value: after the space owed to a preceding `key:`
     tf = fx.fn("<ser::TupleSer as serde::ser::SerializeTupleStruct>::serialize_field")
-    nulls = [b for b, t in tf.calls() if last_seg(fx.callee_decl(t)) == "write_str" and len(t["args"]) > 1 and tf.sym_operand(t["args"][1])[:2] == ("const", "null")]
-    sp = [b for b, t in tf.calls() if fx.callee(t) == "ser::YamlSerializer::write_space_if_pending"]
-    ctx.check(bool(nulls) and all(any(tf.dominates(p, w) for p in sp) for w in nulls), "ANCHOR", "C14:ANCHOR:dangling-weak-null-spaced", "a dangling weak is written as `null` after the space owed to its key",
+    # (in serialize_field itself, or in a helper of the serializer it calls for that branch)
+    def spaced_nulls(g):
+        nl = [b for b, t in g.calls() if last_seg(fx.callee_decl(t)) == "write_str" and len(t["args"]) > 1 and g.sym_operand(t["args"][1])[:2] == ("const", "null")]
+        spg = [b for b, t in g.calls() if fx.callee(t) == "ser::YamlSerializer::write_space_if_pending"]
+        return nl, all(any(g.dominates(p, w) for p in spg) for w in nl)
+    nulls, ok_sp = spaced_nulls(tf)
+    for hb, ht in tf.calls():
+        h = fx.local_callee(ht)
+        if h is not None and h is not tf and h.kind != "closure" and h.npath.startswith("ser::YamlSerializer::"):
+            hn, hok = spaced_nulls(h)
+            if hn:
+                sp_tf = [b for b, t in tf.calls() if fx.callee(t) == "ser::YamlSerializer::write_space_if_pending"]
+                nulls = nulls + hn
+                ok_sp = ok_sp and (hok or any(tf.dominates(p, hb) for p in sp_tf))
+    ctx.check(bool(nulls) and ok_sp, "ANCHOR", "C14:ANCHOR:dangling-weak-null-spaced", "a dangling weak is written as `null` after the space owed to its key",
               "the absent branch of the weak-anchor payload writes `null` without write_space_if_pending(): `dead:null` does not read back", config, ctx.where(tf))
 
 
